@@ -14,6 +14,9 @@ CONSTANTS NElem,      \* number of elements of the document
           NAttr,      \* sequence: attributes per element
           NVals,      \* size of the boundary value pool
           NVers,      \* size of the version pool
+          NDoctypes,  \* size of the DOCTYPE line pool
+          NTemplates, \* size of the pool of whole attribute lists (one valid list per object type, and each with one attribute damaged)
+          ObjElems,   \* the elements that are <object>
           MaxMut, SimLen
 VARIABLES muts
 
@@ -26,19 +29,29 @@ Mutations ==
   \cup {<<"truncate", k, 0, 0>> : k \in 1..15}
   \cup {<<"setversion", v, 0, 0>> : v \in 1..NVers}
   \cup {<<"dupattr", e, a, 0>> : e \in 1..NElem, a \in 1..9}
+  \* the document ends inside the start tag of element e: (a = 0) before "<", after the name, before ">", after ">";
+  \* (a > 0) after the name of attribute a, at the start, in the middle and at the end of its value
+  \cup {<<"cutat", e, a, w>> : e \in 1..NElem, a \in 0..9, w \in 1..4}
+  \cup {<<"doctype", v, 0, 0>> : v \in 1..NDoctypes}
+  \* object e becomes an object of another type: its whole attribute list is replaced by template k
+  \cup {<<"retype", e, k, 0>> : e \in ObjElems, k \in 1..NTemplates}
 
 \* only mutations that address something that exists
 Applicable(m) ==
-  /\ m[1] \in {"dropattr", "setattr", "dupattr"} => m[3] <= NAttr[m[2]]
+  /\ m[1] \in {"dropattr", "setattr", "dupattr", "cutat"} => m[3] <= NAttr[m[2]]
   /\ m[1] = "swapelems" => m[2] < m[3]
 
 Init == muts = <<>>
 Next == /\ Len(muts) < MaxMut
         /\ \E m \in Mutations : Applicable(m) /\ muts' = Append(muts, m)
 Spec == Init /\ [][Next]_muts
+\* for simulation: one random applicable mutation per step (TLC's simulator would otherwise build every successor of every step)
+NextSim == /\ Len(muts) < MaxMut
+           /\ muts' = Append(muts, RandomElement({m \in Mutations : Applicable(m)}))
+SpecSim == Init /\ [][NextSim]_muts
 
 \* every recipe addresses existing elements and attributes only
-RecipeOK == \A k \in DOMAIN muts : Applicable(muts[k]) /\ (muts[k][1] \in {"dropattr", "setattr", "dupattr", "dupelem", "dropelem"} => muts[k][2] <= NElem)
+RecipeOK == \A k \in DOMAIN muts : Applicable(muts[k]) /\ (muts[k][1] \in {"dropattr", "setattr", "dupattr", "dupelem", "dropelem", "cutat", "retype"} => muts[k][2] <= NElem)
 EmitState == (muts # <<>>) => PrintT(<<"RECIPE", ToJson(muts)>>)
 EmitSim == (Len(muts) = SimLen) => PrintT(<<"SIM", ToJson(muts)>>)
 =============================================================================
